@@ -192,6 +192,8 @@ def goal_small(spec, pre, post):
     got = float(post["deriv_out"][w, i])
     return lib.approx(got, want), f"damping derivative[{w},{i}] = {got}, expected {want}"
   if e["kind"] == "damp_M":
+    if len(pre["M_rownnz"]) <= i or len(pre["M_rowadr"]) <= i:
+      return False, "the kernel does not read M_rowadr / M_rownnz of its dof: it cannot address the diagonal entry (last entry of the CSR row)"
     adr = int(pre["M_rowadr"][i]) + int(pre["M_rownnz"][i]) - 1
     d = post["M_integration_out"].astype(float) - pre["M_integration_out"].astype(float)
     want = np.zeros_like(d)
@@ -363,7 +365,27 @@ def api_replay(model, integ, flags="", nstep=3, what=STATE[:4]):
   return _rp
 
 
-def compare_state(ctx, sess, prefix, arrs, ref, warm, replay, desc, names=None):
+def warm_replay(model, integ="Euler", flags=""):
+  """real _advance with an acceleration argument different from d.qacc: the warm start must be d.qacc"""
+
+  def _rp(zmodel):
+    import warp as wp
+
+    import mujoco_warp as mjw
+    from mujoco_warp._src import forward
+
+    xml, mjm, m, d = build(model, integ, flags)
+    mjw.forward(m, d)
+    qacc0 = d.qacc.numpy().copy()
+    arg = wp.array((qacc0 + 1.0 + np.arange(qacc0.shape[1])).astype(np.float32), dtype=float)
+    forward._advance(m, d, arg)
+    got = d.qacc_warmstart.numpy()
+    return (not np.allclose(got, qacc0, rtol=1e-5, atol=1e-6)), _save(f"warmstart.{model}", {"xml": xml, "d.qacc": qacc0.tolist(), "qacc argument": arg.numpy().tolist(), "qacc_warmstart after _advance": got.tolist()})
+
+  return _rp
+
+
+def compare_state(ctx, sess, prefix, arrs, ref, warm, replay, desc, names=None, wreplay=None):
   for f in STATE[:4]:
     got = cells(arrs, f, post=True)
     want = ref[f] if f != "time" else [ref["time"]]
@@ -371,7 +393,7 @@ def compare_state(ctx, sess, prefix, arrs, ref, warm, replay, desc, names=None):
       A.prove_eq(ctx, sess, f"{prefix}{f}.{k}", g, wv, names=names or {}, replay=replay, desc=f"{desc}: {f}[{k}] after the step differs from MuJoCo")
   if warm is not None:
     for k, (g, wv) in enumerate(zip(cells(arrs, "qacc_warmstart", post=True), warm)):
-      A.prove_eq(ctx, sess, f"{prefix}qacc_warmstart.{k}", g, wv, names=names or {}, replay=replay, desc=f"{desc}: qacc_warmstart[{k}] is not the last computed acceleration")
+      A.prove_eq(ctx, sess, f"{prefix}qacc_warmstart.{k}", g, wv, names=names or {}, replay=wreplay or replay, desc=f"{desc}: qacc_warmstart[{k}] is not the last computed acceleration")
 
 
 def unit_advance(given_qvel):
@@ -393,7 +415,7 @@ def unit_advance(given_qvel):
     ref = I.advance_ref(info, st, cells(arrs, "act_dot"), list(qacc.ref.cell.d0[0]), list(qv.ref.cell.d0[0]) if given_qvel else None, h, qi_sym)
     sess = ctx.session([core.zbool(a) for a in hr.assumes])
     ctx.reach(sess, "twin:state", True)
-    compare_state(ctx, sess, "", arrs, ref, cells(arrs, "qacc"), api_replay("mix", "Euler", '<flag eulerdamp="disable"/>'), "_advance")
+    compare_state(ctx, sess, "", arrs, ref, cells(arrs, "qacc"), api_replay("mix", "Euler", '<flag eulerdamp="disable"/>'), "_advance", wreplay=warm_replay("mix"))
 
   return (f"advance/{'given-qvel' if given_qvel else 'new-qvel'}", run)
 
@@ -487,7 +509,7 @@ def unit_euler(flagname):
     else:
       qacc = cells(arrs, "qacc")
     ref = I.advance_ref(info, st, cells(arrs, "act_dot"), qacc, None, h, qi_sym)
-    compare_state(ctx, sess, "", arrs, ref, cells(arrs, "qacc"), rp, f"euler ({flagname})")
+    compare_state(ctx, sess, "", arrs, ref, cells(arrs, "qacc"), rp, f"euler ({flagname})", wreplay=warm_replay("mix", "Euler", flags))
 
   return (f"euler/{flagname}", run)
 
@@ -523,7 +545,7 @@ def unit_implicit(integ):
     ctx.prove(sess, "rhs-is-efc.Ma", And(*[a == b for a, b in zip(solve[2].ref.cell.d[0], cells(arrs, "efc.Ma"))]), replay=rp, desc=f"implicit ({integ}): right-hand side of the solve is not M*qacc")
     qacc = list(solve[3].ref.cell.d[0])
     ref = I.advance_ref(info, st, cells(arrs, "act_dot"), qacc, None, h, qi_sym)
-    compare_state(ctx, sess, "", arrs, ref, cells(arrs, "qacc"), rp, f"implicit ({integ})")
+    compare_state(ctx, sess, "", arrs, ref, cells(arrs, "qacc"), rp, f"implicit ({integ})", wreplay=warm_replay("mix", integ))
 
   return (f"implicit/{integ}", run)
 
@@ -569,6 +591,9 @@ def unit_rk4(model, timedep):
 
 
 def main(tier, seed, only=None):
+  import mujoco_warp  # noqa: imported once here so that the forked unit processes inherit the loaded modules
+  from mujoco_warp._src import forward, smooth, support, util_misc  # noqa
+
   units = [("reference", unit_reference), ("quat_integrate", unit_quat_integrate), ("kernels", unit_small)]
   pid_units = [c23.unit_next_position(True), c23.unit_next_position(False)]
   pid_units += [c03.unit_next_activation(dn, 2 if tier != "thorough" else 3) for dn in A.DYN if dn != "none"]
